@@ -2212,6 +2212,8 @@ class Side:
             new_side.disp_flags = self.disp_flags
             new_side.disp_elevation = self.disp_elevation
             new_side.disp_pos = self.disp_pos.copy()
+            if self.disp_allowed_vert is not None:
+                new_side.disp_allowed_vert = Array('i', self.disp_allowed_vert)
             new_side._disp_verts = [
                 DispVertex(
                     vert.x,
@@ -2223,6 +2225,9 @@ class Side:
                     vert.alpha,
                     vert.triangle_a,
                     vert.triangle_b,
+                    vert.multi_blend,
+                    vert.multi_alpha,
+                    None if vert.multi_colors is None else [col.copy() for col in vert.multi_colors],
                 ) for vert in self._disp_verts
             ]
         if self.strata_points is not None:
